@@ -238,13 +238,17 @@ BODY_ATOMS = ["<!--", "-->", "<noinclude>", "</noinclude>", "<includeonly>", "</
               "<noinclude", "<!-", "--", ">", "<", "/", " ", "\n", "a", "b", "{{{1}}}", "{{t}}", "x<y", "-"]
 
 
-def gen_body_text(rng):
+def gen_body_text(rng, info=None):
     if rng.random() < 0.5:
         # mostly well-formed arrangements
         parts = []
+        stray = rng.random() < 0.25       # unclosed / stray comment marks inside the elements
+        if info is not None:
+            info["wf"] = not stray
         for _ in range(rng.randint(1, 6)):
             k = rng.random()
-            inner = "".join(rng.choice(["a", "b", " ", "\n", "{{{1}}}", "-", ">", "x"]) for _ in range(rng.randint(0, 4)))
+            inner = "".join(rng.choice(["a", "b", " ", "\n", "{{{1}}}", "-", ">", "x"] + (["<!--", "-->", "<!-- c"] if stray else []))
+                            for _ in range(rng.randint(0, 4)))
             case = lambda t: "".join(ch.upper() if rng.random() < 0.2 else ch for ch in t)
             ws = lambda: rng.choice(["", "", " ", "\n"])
             if k < 0.25:
@@ -260,12 +264,15 @@ def gen_body_text(rng):
                              + "</" + case("onlyinclude") + ws() + ">")
             else:
                 parts.append(rng.choice(["<noinclude>", "<!--", "<onlyinclude>", "</noinclude>", "-->"]) + inner)
+                if info is not None:
+                    info["wf"] = False
         return "".join(parts)
     return "".join(rng.choice(BODY_ATOMS) for _ in range(rng.randint(1, 9)))
 
 
 def check_template_body(run, rng, quick):
-    texts = [gen_body_text(rng) for _ in range(1500 if quick else 40000)]
+    infos = [{} for _ in range(1500 if quick else 40000)]
+    texts = [gen_body_text(rng, info) for info in infos]
     res = lib.run_impl("template_body", [{"texts": texts[i:i + 500]} for i in range(0, len(texts), 500)], shards=lib.NCPU)
     outs = []
     for r in res:
@@ -282,8 +289,14 @@ def check_template_body(run, rng, quick):
     for e in errs:
         run.correspondence_break("model evaluation failed (template body)", None, error=e)
     for b in bad:
-        run.correspondence_break("Model.Body.template_to_body disagrees with Wtp._template_to_body",
-                                 {"text": texts[b]}, impl_out=outs[b])
+        if infos[b].get("wf"):
+            # inside the grammar of c04_includable_part: the model's result is the documented includable part
+            run.property_failure("c04:template-body:not-the-includable-part",
+                                 "_template_to_body(%r) = %r is not the includable part of a well-formed arrangement of "
+                                 "comments and noinclude/includeonly/onlyinclude elements" % (texts[b], outs[b]), {"text": texts[b]})
+        else:
+            run.correspondence_break("Model.Body.template_to_body disagrees with Wtp._template_to_body",
+                                     {"text": texts[b]}, impl_out=outs[b])
 
 
 def run(run):
